@@ -592,6 +592,7 @@ func (c *FnCtx) callFunc(env *Env, fn *types.Func, recv *Val, args []Val, x *ast
 		c.siteAsserts(env.st, "before "+site, x)
 	}
 	v := c.callFuncInner(env, fn, recv, args, x, targs)
+	c.monitorHook(env, fn, recv, x)
 	if site != "" {
 		c.siteAsserts(env.st, "after "+site, x)
 	}
@@ -936,7 +937,7 @@ func (c *FnCtx) applyContract(env *Env, fn *types.Func, ct *Contract, recv *Val,
 					c.declConst(na, "Int")
 					c.facts = append(c.facts, implies(app(">=", r.T, old.alloc), app(">", na, r.T)), app(">=", na, st.alloc))
 					if pt, ok := c.subst(r.Typ).Underlying().(*types.Pointer); ok {
-						if _, isS := c.subst(pt.Elem()).Underlying().(*types.Struct); isS {
+						if _, isS := c.subst(pt.Elem()).Underlying().(*types.Struct); isS && c.objTy {
 							c.useObjTy()
 							c.facts = append(c.facts, implies(app(">=", r.T, old.alloc), eq(app("objty", r.T), c.typeTag(pt.Elem()))))
 						}
@@ -950,6 +951,11 @@ func (c *FnCtx) applyContract(env *Env, fn *types.Func, ct *Contract, recv *Val,
 	for _, en := range ct.Ensures {
 		if en.Try {
 			continue // unproved clauses are never assumed
+		}
+		if strings.Contains(en.Src, "atlock(") {
+			// speaks about the state the callee's critical section found, which the caller
+			// has no name for: not assumed at call sites (weaker, hence sound)
+			continue
 		}
 		g := c.eval(cenv, en.Expr)
 		c.assume(st, g.T)
